@@ -68,6 +68,8 @@ def tokens_to_string(tokens):
     content, line = '', ''
 
     for token in tokens:
+        # source text of the token (the lexer decodes string and variable tokens)
+        value = getattr(token.value, 'raw', None) or token.value
         if token.lineno != line_num:
             # go to new line
             content += line + '\n'
@@ -82,9 +84,9 @@ def tokens_to_string(tokens):
         line += ' '*(token.index - shift - len(line))
 
         # add token
-        line += token.value
+        line += value
 
-        last_pos = token.index + len(token.value)
+        last_pos = token.index + len(value)
 
     # last line
     content += line
